@@ -188,6 +188,9 @@ package builder
 // (C19 ":map/:conv paths always compare case-sensitively": the anchors below demand pattern == path(lhs), plain
 // string equality, whatever the case rule)
 //@ func (*assignmentBuilder).matchStructFieldAndStruct(b, lhs, rhs, additionalArgs) (a, err)
+//@   decreases 4*depthOf(bmodel.parentOf(lhs)) + 2
+//@   requires memberOK(lhs)
+//@   use T11(derefT(bmodel.exprType(bmodel.parentOf(lhs))))
 //@   props C09, C19
 //@   reveal wfNode, exprType, returnsError, parentOf, objNameOf
 //@   requires wfB(b) && convsReady(b.opts) && templReady(b.opts) && bmodel.wfNode(lhs) && bmodel.wfNode(rhs) && plainPath(rhs) && argsReady(additionalArgs)
@@ -219,6 +222,12 @@ package builder
 //@ spec cmpName(o option.Options, a string, b string) bool = cond(o.ExactCase, a == b, equalFold(a, b))
 //@ spec readyB(b *assignmentBuilder) bool = wfB(b) && convsReady(b.opts) && templReady(b.opts)
 //@ spec okResult(a gmodel.Assignment, l string) bool = a == nil || gmodel.covers(a, l)
+// Termination of the builder's recursion (C14): structToStruct -> matchStructFieldAndStruct -> the default-matching
+// handler -> structToStruct descends into a destination member only when that member is a struct held by value,
+// and by-value nesting is well founded (library axiom T12: no struct contains itself by value).  depthOf is the
+// nesting depth of the destination struct the three functions are working in.
+//@ spec depthOf(n bmodel.Node) int = nestDepth(derefT(bmodel.exprType(n)))
+//@ spec memberOK(n bmodel.Node) bool = isStructT(bmodel.exprType(n)) ==> depthOf(n) < depthOf(bmodel.parentOf(n))
 //@
 //@ func (*assignmentBuilder).structFieldAndStructGettersAndFields$1(rhs) (done)
 //@   inline
@@ -229,6 +238,9 @@ package builder
 //@   atcall structToStruct: {C02,C14} isStructT(bmodel.exprType(lhs)) && isStructT(bmodel.exprType(rhs))
 //@
 //@ func (*assignmentBuilder).structFieldAndStructGettersAndFields(b, lhs, rhsStruct) (a, err)
+//@   decreases 4*depthOf(bmodel.parentOf(lhs)) + 1
+//@   requires memberOK(lhs)
+//@   use T11(derefT(bmodel.exprType(lhs)))
 //@   props C09, C07
 //@   use T0(derefT(bmodel.exprType(rhsStruct))), T0(underlying(derefT(bmodel.exprType(rhsStruct))))
 //@   reveal wfNode, exprType, returnsError, objNameOf, assignExpr
@@ -261,9 +273,12 @@ package builder
 //@ spec accBefore(b *assignmentBuilder, lhs bmodel.Node, k int) int = cond(k <= 0, 0, accBefore(b, lhs, k-1) + cond(accField(b, lhs, k-1), 1, 0))
 //@
 //@ func (*assignmentBuilder).structToStruct(b, lhsStruct, rhsStruct, additionalArgs) (r, err)
+//@   decreases 4*depthOf(lhsStruct) + 3
+//@   use T11(derefT(bmodel.exprType(lhsStruct)))
+//@   use forall(i, 0, nFieldsOf(bmodel.exprType(lhsStruct)), T12(derefT(bmodel.exprType(lhsStruct)), i))
 //@   props C09
 //@   use T0(derefT(bmodel.exprType(lhsStruct))), T0(underlying(derefT(bmodel.exprType(lhsStruct))))
-//@   reveal wfNode, exprType, objNameOf, assignExpr
+//@   reveal wfNode, exprType, objNameOf, assignExpr, parentOf
 //@   requires readyB(b) && bmodel.wfNode(lhsStruct) && bmodel.wfNode(rhsStruct) && plainPath(rhsStruct) && argsReady(additionalArgs)
 //@   effects log, warn
 //@   assigns all(option.PatternMatcher.re), all(option.PatternMatcher.exactCase)
